@@ -152,7 +152,8 @@ def quote_guards(prog, rep):
                         DQ_ = x.targets[0].id
                 if isinstance(x, ast.Assign) and isinstance(x.targets[0], ast.Name) and chv and norm(x.value) == chv and x in l.body:
                     PV = x.targets[0].id
-        if DV is not None and (SQ_ is None or DQ_ is None):
+        quote_vars = [x for x in walk_own(fi.node) if isinstance(x, (ast.Assign, ast.AnnAssign)) and getattr(x, "value", None) is not None and ((isinstance(x.value, ast.Name) and x.value.id in ("char", "c", "ch")) or isinstance(x.value, ast.Constant) and x.value.value is None) and "quote" in norm(x.targets[0] if isinstance(x, ast.Assign) else x.target).lower()]
+        if DV is not None and (SQ_ is None or DQ_ is None) and quote_vars:
             rep.undecided("QUOTES", fi.short, "quote state", "the scanner steps a bracket depth but keeps its quote state in some other form than two flags toggled on ' and \"", fi.loc())
             continue
         DV, SQ_, DQ_, PV = DV or "to_consume", SQ_ or "single_quote", DQ_ or "double_quote", PV or "prev_char"
